@@ -418,6 +418,12 @@ def write_evidence(prop, tier, verif_seed, conf, workers, agg, det, wall, n_viol
     faults['F4'].update(armed=st.get('fault_F4_armed', 0), fired=st.get('fault_F4_fired', 0),
                         fired_by_site={s: st.get('fault_F4_fired_' + s, 0) for s in
                                        ('on_status_overflow', 'on_status_underflow', 'on_status_inaccuracy', 'on_value_change')})
+    faults['F3'].update(strict_handlers_armed=st.get('fault_F3_strict_armed', 0),
+                        strict_handlers_fired=st.get('fault_F3_strict_fired', 0),
+                        strict_handlers_fired_on_library_temporaries=st.get('fault_F3_strict_fired_on_temporary', 0))
+    faults['F2'].update(rejected_value_write_destination_kept=st.get('failed_write_dest_kept', 0))
+    faults['F9'] = {'what': 'registered callbacks replaced by the caller (equal or unequal newcomers)',
+                    'replacements': st.get('callbacks_replaced', 0)}
     faults['F7'] = {'what': 'callback that unregisters itself while being notified',
                     'armed': st.get('fault_F7_unregister_armed', 0), 'fired': st.get('fault_F7_unregister_fired', 0)}
     faults['F8'] = {'what': 'callback that writes to the object it is being notified about, mid-write (C04 only)',
